@@ -7,8 +7,12 @@
 // keeps lets the optimiser produce a STALE answer (or drop the effect).  The reference answer is obtained through a
 // volatile function pointer, which carries no attributes.
 //
-// usage: purity_probe <group>...   groups: hash tree btree ring thread sem     one line per probe: "<name> ok|STALE"
+// usage: purity_probe <group>...   groups: hash tree btree ring thread sem normal join env fs    one line per probe: "<name> ok|STALE"
+#include <zix/allocator.h>
 #include <zix/btree.h>
+#include <zix/environment.h>
+#include <zix/filesystem.h>
+#include <zix/path.h>
 #include <zix/hash.h>
 #include <zix/ring.h>
 #include <zix/sem.h>
@@ -258,6 +262,50 @@ static void probe_sem(void)
   zix_sem_destroy(&s);
 }
 
+// ---------------------------------------------------------------- functions that return a fresh block
+// Two calls with the same arguments must give two blocks: a declaration that lets the optimiser merge them hands the
+// caller one block twice (the second result changes when the first is edited, and both would be freed).
+#define FRESH(NAME, CALL)                                   \
+  do {                                                      \
+    char* const a = (CALL);                                 \
+    char* const b = (CALL);                                 \
+    int         stale = a && b && a == b;                   \
+    if (a && b && a != b && a[0]) {                         \
+      const char keep = b[0];                               \
+      a[0]            = (char)(a[0] ^ 0x55);                \
+      stale           = b[0] != keep;                       \
+    }                                                       \
+    report(NAME, stale);                                    \
+    zix_free(NULL, a);                                      \
+    if (b != a) {                                           \
+      zix_free(NULL, b);                                    \
+    }                                                       \
+  } while (0)
+
+static void probe_normal(void)
+{
+  FRESH("zix_path_lexically_normal", zix_path_lexically_normal(NULL, "/usr/lib/../share/./zix//"));
+}
+
+static void probe_join(void)
+{
+  FRESH("zix_path_join", zix_path_join(NULL, "/usr", "lib"));
+  FRESH("zix_path_lexically_relative", zix_path_lexically_relative(NULL, "/a/b/c", "/a/d"));
+  FRESH("zix_path_preferred", zix_path_preferred(NULL, "/a/b"));
+}
+
+static void probe_env(void)
+{
+  FRESH("zix_expand_environment_strings", zix_expand_environment_strings(NULL, "x$HOME/y"));
+}
+
+static void probe_fs(void)
+{
+  FRESH("zix_current_path", zix_current_path(NULL));
+  FRESH("zix_canonical_path", zix_canonical_path(NULL, "/"));
+  FRESH("zix_temp_directory_path", zix_temp_directory_path(NULL));
+}
+
 int main(int argc, char** argv)
 {
   for (int i = 1; i < argc; ++i) {
@@ -273,6 +321,14 @@ int main(int argc, char** argv)
       probe_thread();
     } else if (!strcmp(argv[i], "sem")) {
       probe_sem();
+    } else if (!strcmp(argv[i], "normal")) {
+      probe_normal();
+    } else if (!strcmp(argv[i], "join")) {
+      probe_join();
+    } else if (!strcmp(argv[i], "env")) {
+      probe_env();
+    } else if (!strcmp(argv[i], "fs")) {
+      probe_fs();
     }
   }
   fflush(stdout);
